@@ -230,6 +230,7 @@ class FaultFS:
         self.crash_call = None
         self._open_files = []
         self._raw_fds = set()
+        self._fd_path = {}  # descriptor from an intercepted os.open -> its path (for fdopen'ed files)
         self._saved = []
         self._active = False
         self.escapes = []
@@ -363,7 +364,7 @@ class FaultFS:
         self._tick("fdopen", (fd, mode))
         r = real(fd, mode, buffering, *a, **kw)
         self._raw_fds.discard(fd)
-        return _File(self, r, "fd:%d" % fd, buffered=buffering != 0)
+        return _File(self, r, self._fd_path.pop(fd, "fd:%d" % fd), buffered=buffering != 0)
 
     def _wrap_os_open(self, real):
         def os_open(path, flags, *a, **kw):
@@ -379,6 +380,7 @@ class FaultFS:
             self._tick("os.open", (os.fsdecode(path), flags))
             fd = real(path, flags, *a, **kw)
             self._raw_fds.add(fd)
+            self._fd_path[fd] = os.fsdecode(path)
             return fd
 
         return os_open
